@@ -422,6 +422,11 @@ class Den:
     def mod(self, fn):
         return self.modof[id(fn)]
 
+    def baseline_features(self):
+        if not hasattr(self, "_blf"):
+            self._blf = er.baseline_graph(self.prog.module(BL))["features"] if BL in self.prog.modules else {}
+        return self._blf
+
     def consts(self, text, fn):
         m = self.mod(fn)
         key = (m.rel, text, id(pf.enclosing_class(fn)))
@@ -464,11 +469,12 @@ class Den:
             return sd.AV(sd.Z, True, False, root)
         if p in CUTOFF_NAMES:
             return sd.AV(sd.P, False, False)
-        if p == "X0T":
-            # raw features: rows are non-negative in the native baselines (density, s^2, damping
-            # feature); for the normaliser list only row 0 is used as a denominator, always clamped
-            if self.mod(fn).rel == BL:
+        if self.mod(fn).rel == BL:
+            # raw features: rows are non-negative in the native baselines (density, s^2, damping feature)
+            if p in self.baseline_features().get(fn.name, ()):
                 return sd.AV(sd.Z, True, False, root)
+        elif p == "X0T":
+            # normaliser list: only row 0 is used as a denominator, always clamped
             return sd.AV(sd.U, True, False)
         if p == "x" and cls is not None and cls.name.startswith("SL"):
             return sd.AV(sd.Z, True, False, root)
@@ -570,15 +576,14 @@ def den_entries(prog):
 
 
 def baseline_entries(prog):
-    """native baselines: every module-level function of baselines.py that takes the raw feature
-    array X0T (the `_*_x_helper` kernels, the RHO baseline, the sigma reconstruction for GGA_C)"""
+    """native baselines: every function of baselines.py reachable from the public registry BASELINE_CODES
+    that receives (a slice of) the raw feature array -- the registered functions, the per-spin kernels they
+    hand on as callables, the sigma reconstruction behind GGA_C_PBE"""
     bl = prog.module(BL)
-    out = []
-    for name, fn in bl.functions.items():
-        if "X0T" in er.param_names(fn):
-            out.append((BL, name, fn))
-    if sum(1 for _, n, _ in out if "_x_" in n and n.endswith("_helper") and n != "_sl_x_helper") < 4:
-        raise core.AnalysisError("fewer than the 4 native exchange helpers found in %s" % BL)
+    g = er.baseline_graph(bl)
+    out = [(BL, name, bl.functions[name]) for name in sorted(g["reach"]) if g["features"].get(name)]
+    if len(g["helpers"]) < 3:
+        raise core.AnalysisError("fewer than 3 per-spin exchange kernels found behind BASELINE_CODES in %s" % BL)
     return out
 
 
